@@ -179,9 +179,10 @@ PROPS = {
                 "ok / raising; non-trivial = distinct (kind, handler, line sequence)",
     },
     "C20": {
-        "lean": ["AriVerif.Props.C20", "AriVerif.Props.SkelReader", "AriVerif.Props.SkelLifecycle", "AriVerif.Conc.MetaClose", "AriVerif.Conc.MetaFault"],
+        "lean": ["AriVerif.Props.C20", "AriVerif.Props.SkelReader", "AriVerif.Props.SkelLifecycle", "AriVerif.Conc.MetaClose", "AriVerif.Conc.MetaFault", "AriVerif.Conc.DataClose", "AriVerif.Conc.DataFault"],
         "gen": ["Skeleton"],
-        "streams": [s_fault.stream, s_dispatch.stream, s_conc.meta_stream(["C20"], "meta-cosim-close")],
+        "streams": [s_fault.stream, s_dispatch.stream, s_conc.meta_stream(["C20"], "meta-cosim-close"),
+                    s_conc.data_stream(["C20"], "data-cosim-close", tails=True)],
         "trusted": [KERNEL, HARNESS, "the scheduler shim (harness/shim.py): Lock/RLock, Queue, Event, Thread, ThreadPoolExecutor, scripted socket with fault injection, virtual clock",
                     "os._exit is substituted by the shim (recorded, thread unwound); real process exit and real socket shutdown semantics are the OS's",
                     "Dispatch.lean's close handling tied by the reader-dispatch differential; readerFault / writerFault tied by the fault-injection co-simulation"],
